@@ -421,6 +421,15 @@ func modeGen(mode string, args []string) {
 			opts.maxStmts = 8
 		}
 		p := genProgram(r, opts)
+		if opts.globals > 0 {
+			// self-check of the generator: every finished program is re-validated by the
+			// scope-aware walk (tagScopes); an ill-scoped one is dropped and generated
+			// again (counted: the check reports the count, it must stay 0)
+			for try := 0; try < 8 && illScoped(p); try++ {
+				o.Count("generator_ill_scoped_regenerated")
+				p = genProgram(r.Fork(), opts)
+			}
+		}
 		var tys []*Ty
 		for _, pr := range p.Main().Params {
 			tys = append(tys, pr.T)
